@@ -235,7 +235,7 @@ def run(ctx):
             if nj >= 2:
                 ctx.nontriv(("par", X.tobytes(), y.tobytes(), method, nj, seed))
     # ---- SingleAnnotatorWrapper: samples in the order the wrapped strategy ranks them ----
-    for h in range(60 if ctx.is_quick else 600):
+    for h in range(400 if ctx.is_quick else 4000):
         n, na = int(rng.integers(2, 7)), int(rng.integers(1, 4))
         X = rng.integers(0, 3, size=(n, 2)).astype(float)
         y = rng.integers(0, 2, size=(n, na)).astype(float)
@@ -246,11 +246,30 @@ def run(ctx):
         bs = int(rng.integers(1, n * napp + 1))
         RECORD.clear()
         saw = SingleAnnotatorWrapper(Rec(random_state=seed), random_state=seed)
+        # annotator performances: not given / per annotator / per (candidate, annotator); accuracies in [0, 1), scores with negative
+        # entries (kappa-like), large integers, constant
+        pstyle = str(rng.choice(["none", "none", "unit", "signed", "signed_rows", "large", "constant"]))
+        pshape = (na,) if (rng.random() < 0.5 and pstyle != "signed_rows") else (n, na)
+        if pstyle == "none":
+            A_perf = None
+        elif pstyle == "unit":
+            A_perf = np.round(rng.random(pshape), 2) * 0.99
+        elif pstyle == "signed":
+            A_perf = np.round(rng.random(pshape) * 1.9 - 1.0, 2)
+        elif pstyle == "signed_rows":     # some samples have only weak (negative) annotators, others only strong ones: spread > 1 between samples
+            A_perf = np.where(rng.random((n, 1)) < 0.5, -0.95, 0.9) + np.round(rng.random((n, na)) * 0.04, 3)
+        elif pstyle == "large":
+            A_perf = rng.integers(0, 50, size=pshape).astype(float)
+        else:
+            A_perf = np.full(pshape, 0.3)
         try:
-            pairs = saw.query(X=X, y=y, candidates=cand, annotators=None, batch_size=bs, n_annotators_per_sample=napp, clf=R._clf([0, 1], seed))
+            pairs = saw.query(X=X, y=y, candidates=cand, annotators=None, batch_size=bs, n_annotators_per_sample=napp, clf=R._clf([0, 1], seed),
+                              A_perf=None if A_perf is None else A_perf.copy())
         except Exception as e:
-            ctx.violation("SingleAnnotatorWrapper", "exception", repr(e), {"y": [[None if np.isnan(v) else v for v in r] for r in y], "bs": bs, "napp": napp})
+            ctx.violation("SingleAnnotatorWrapper", "exception", repr(e), {"y": [[None if np.isnan(v) else v for v in r] for r in y], "bs": bs, "napp": napp,
+                                                                           "A_perf": None if A_perf is None else A_perf.tolist()})
             continue
+        ctx.hist[f"saw:A_perf={pstyle}:{len(pshape)}d"] += 1
         ctx.count("SingleAnnotatorWrapper_order")
         inner_order = [int(i) for i in np.asarray(RECORD[-1]["out"][0]).ravel()]
         seen = []
@@ -259,8 +278,25 @@ def run(ctx):
                 seen.append(s)
         if seen != inner_order[:len(seen)]:
             ctx.violation("SingleAnnotatorWrapper", "order", f"samples chosen in order {seen}, wrapped strategy ranked {inner_order}",
-                          {"X": X.tolist(), "y": [[None if np.isnan(v) else v for v in r] for r in y], "bs": bs, "napp": napp, "seed": seed},
-                          what="SingleAnnotatorWrapper does not choose samples in the order the wrapped strategy ranks them")
+                          {"X": X.tolist(), "y": [[None if np.isnan(v) else v for v in r] for r in y], "bs": bs, "napp": napp, "seed": seed,
+                           "A_perf": None if A_perf is None else A_perf.tolist()},
+                          what=f"SingleAnnotatorWrapper does not choose samples in the order the wrapped strategy ranks them (A_perf: {pstyle}, shape {pshape})")
+        elif A_perf is not None:
+            # documented: within a sample, (i, j) is preferred over (i, k) if A_perf[i, j] >= A_perf[i, k]
+            P2 = A_perf if A_perf.ndim == 2 else np.tile(A_perf, (n, 1))
+            chosen = {}
+            for s_, a_ in np.asarray(pairs).tolist():
+                chosen.setdefault(s_, []).append(a_)
+            complete = seen[:-1] if len(np.asarray(pairs)) == bs else seen        # the last sample may have been cut by the batch size
+            for s_ in complete:
+                avail = [a for a in range(na) if np.isnan(y[s_, a])]
+                got = chosen[s_]
+                rest = [a for a in avail if a not in got]
+                if rest and got and min(P2[s_, a] for a in got) < max(P2[s_, a] for a in rest):
+                    ctx.violation("SingleAnnotatorWrapper", "annotator_preference", f"sample {s_}: annotators {got} chosen, performances {P2[s_].tolist()}, available {avail}",
+                                  {"X": X.tolist(), "y": [[None if np.isnan(v) else v for v in r] for r in y], "bs": bs, "napp": napp, "seed": seed, "A_perf": A_perf.tolist()},
+                                  what="SingleAnnotatorWrapper: a less performant annotator was preferred over a more performant available one")
+                    break
         if len(seen) >= 2:
             ctx.nontriv(("saw", X.tobytes(), y.tobytes(), bs, napp, seed))
     ctx.extra["exhaustive"] = False
